@@ -136,12 +136,104 @@ func drain(ch chan struct{}) {
 	}
 }
 
+// overlapDrain (real sockets, no controlled listener): serving call #1 is shut down while client A is still connected and keeps
+// draining; the same object is bound and served again (#2) and client B connects to it; when A ends, #1 must return although
+// B - which is not its connection - is still open.
+func overlapDrain(n int) string {
+	svc, _ := varlink.NewService("v", "p", "1", "u")
+	ctx := context.Background()
+	a1 := fmt.Sprintf("unix:@vrf-ovl1-%d-%d", os.Getpid(), n)
+	a2 := fmt.Sprintf("unix:@vrf-ovl2-%d-%d", os.Getpid(), n)
+	visit := func(addr string) (*varlink.Connection, error) {
+		var c *varlink.Connection
+		var err error
+		for t := 0; t < 2000; t++ {
+			if c, err = varlink.NewConnection(ctx, addr); err == nil {
+				break
+			}
+			time.Sleep(time.Millisecond)
+		}
+		if err != nil {
+			return nil, err
+		}
+		cctx, cancel := context.WithTimeout(ctx, 3*time.Second)
+		defer cancel()
+		var v string
+		if err := c.GetInfo(cctx, &v, nil, nil, nil, nil); err != nil {
+			c.Close()
+			return nil, err
+		}
+		return c, nil
+	}
+	d1 := make(chan error, 1)
+	go func() { d1 <- svc.Listen(ctx, a1, 0) }()
+	ca, err := visit(a1)
+	if err != nil {
+		svc.Shutdown()
+		return "X client A: " + err.Error()
+	}
+	svc.Shutdown()
+	select {
+	case <-d1:
+		ca.Close()
+		return "serving call #1 returned while its connection A was still open"
+	case <-time.After(30 * time.Millisecond):
+	}
+	// wait until #1 has released the object (teardown) so that it can be bound again
+	for t := 0; t < 3000 && svc.VerifRunning(); t++ {
+		time.Sleep(time.Millisecond)
+	}
+	var d2 chan error
+	for t := 0; t < 200; t++ {
+		if err = svc.Bind(ctx, a2); err == nil {
+			break
+		}
+		time.Sleep(5 * time.Millisecond)
+	}
+	if err != nil {
+		ca.Close()
+		return "the object cannot be bound again while call #1 drains: " + err.Error()
+	}
+	d2 = make(chan error, 1)
+	go func() { d2 <- svc.DoListen(ctx, 0) }()
+	cb, err := visit(a2)
+	if err != nil {
+		ca.Close()
+		svc.Shutdown()
+		return "X client B: " + err.Error()
+	}
+	res := "ok"
+	ca.Close()
+	select {
+	case <-d1:
+	case <-time.After(3 * time.Second):
+		res = "serving call #1 did not return within 3 s after its only accepted connection ended (another serving call's connection is still open)"
+	}
+	cb.Close()
+	svc.Shutdown()
+	select {
+	case <-d2:
+	case <-time.After(3 * time.Second):
+		if res == "ok" {
+			res = "serving call #2 did not return after Shutdown"
+		}
+	}
+	select {
+	case <-d1:
+	case <-time.After(time.Second):
+	}
+	return res
+}
+
 func runCase(n int, line string) (res string) {
 	defer func() {
 		if r := recover(); r != nil {
 			res = "PANIC " + strings.ReplaceAll(fmt.Sprint(r), " ", "_")
 		}
 	}()
+	if strings.HasPrefix(line, "overlap-drain") {
+		return strings.ReplaceAll(overlapDrain(n), " ", "_")
+	}
 	svc, _ := varlink.NewService("v", "p", "1", "u")
 	ctx := context.Background()
 	var l *ctl
